@@ -18,5 +18,7 @@ TCall == /\ l <= Len(Trace) /\ T.ev = "call" /\ l' = l + 1
               [] T.op = "stop"  -> UpStop(T.dt, Sokd(T.base))
               [] OTHER -> FALSE
          /\ ev'.base = T.base /\ ev'.nev = T.nev /\ ev'.err = T.err
-TNext == TNew \/ TCall
+TSkip == /\ l <= Len(Trace) /\ T.ev = "pframe" /\ l' = l + 1      \* processor-level annotation, not a throttle call
+         /\ UNCHANGED <<Cap, MinLen, K, quirk, phase, behind, avail, recording, upOpen, ev>>
+TNext == TNew \/ TCall \/ TSkip
 =============================================================================
